@@ -538,6 +538,14 @@ type SpecDB struct {
 	Files   []string
 	Trusted []string // descriptions of assumed contracts (lib/iface/trusted)
 	RawSMT  []string // raw prelude lines
+	Structurals []*Structural
+}
+
+// Structural: a method-set obligation decided on go/types (no SMT): every method of Iface that returns an error
+// is declared directly on Type (not promoted from an embedded field).
+type Structural struct {
+	Pkg, Type, Iface string
+	Props            []string
 }
 
 type GlobalGhost struct {
@@ -668,6 +676,13 @@ func (db *SpecDB) LoadSpecFile(path, pkgPath string) error {
 			db.Trusted = append(db.Trusted, "global "+strings.TrimSpace(rest[:k])+" is never reassigned")
 		case "smt":
 			db.RawSMT = append(db.RawSMT, rest)
+		case "structural":
+			// structural overrides <Type> <Interface> errors <props...>
+			f := strings.Fields(rest)
+			if len(f) < 5 || f[0] != "overrides" || f[3] != "errors" {
+				return fail(i, "structural: expected 'overrides <Type> <Interface> errors <props>'")
+			}
+			db.Structurals = append(db.Structurals, &Structural{Pkg: curPkg, Type: f[1], Iface: f[2], Props: f[4:]})
 		case "spec":
 			sf, err := parseSpecFun(rest, curPkg)
 			if err != nil {
